@@ -157,8 +157,8 @@ def rest_consumed(e, src):
             n = None
             if cv(s) is not None:
                 n = cv(s)
-            elif s[0] == 'field' and ir.peel(s[1])[0] == 'bin':
-                b = ir.peel(s[1])
+            elif (s[0] == 'field' and ir.peel(s[1])[0] == 'bin') or (s[0] == 'bin' and s[1].startswith('Add')):
+                b = ir.peel(s[1]) if s[0] == 'field' else s
                 if cv(b[2]) is not None and cv(b[3]) is not None:
                     n = cv(b[2]) + cv(b[3])      # constant folding of LEN + LEN only
             inner = rest_consumed(base, src)
@@ -326,7 +326,7 @@ def r4_1_tables(rep, facts):
             if site == 'stream' and 'have_header' not in A:
                 # `past_head > free_start`
                 for (txt, lab) in d.extra_conds:
-                    if txt.startswith("Gt(AddWithOverflow(") and "free_start" in txt:
+                    if txt.startswith("Gt(Add") and "free_start" in txt:
                         A['have_header'] = not dispatch.label_truth(lab)
             if 'have_header' not in A and 'decode' not in A:
                 continue   # framing paths before the header is looked at (payload / padding handling)
